@@ -15,13 +15,13 @@ import (
 )
 
 type SolveResult struct {
-	Status  string // unsat, sat, unknown, timeout, error
-	Solver  string
-	Ms      int64
-	Output  string
-	Model   map[string]string
-	Tried   []string
-	File    string
+	Status string // unsat, sat, unknown, timeout, error
+	Solver string
+	Ms     int64
+	Output string
+	Model  map[string]string
+	Tried  []string
+	File   string
 }
 
 type solverSpec struct {
